@@ -46,6 +46,7 @@ func runC07(c *Ctx) {
 	c07R2Delete(c)
 	c07R2Load(c)
 	c07R2GC(c)
+	c07R2IndexWrapper(c)
 	c07R2IndexAll(c)
 	c07R3(c)
 	c07R4(c)
@@ -495,7 +496,7 @@ func c07R1Predecessors(c *Ctx) {
 
 func c07R2Push(c *Ctx) {
 	const R = "C07.R2.every-push-indexed"
-	c.Expect(R, 15)
+	c.Expect(R, 15) // 16 on the pinned tree
 	type t struct {
 		pkg, name string
 		skip      string
@@ -755,6 +756,52 @@ func c07R2GC(c *Ctx) {
 	}
 }
 
+// c07R2IndexWrapper: the exported Index delegates to the index step for its own node and returns its error.
+func c07R2IndexWrapper(c *Ctx) {
+	const R = "C07.R2.every-push-indexed"
+	fn := c.P.Fn("internal/graph", "Memory.Index")
+	if fn == nil || len(fn.Blocks) == 0 {
+		c.LostAnchor(R, c07Index)
+		return
+	}
+	if len(CallsTo(fn, "~/content.Successors")) > 0 {
+		c.OK(R, FnName(fn)+"|delegates-to-index-step", fn.Pos(), "Index is the index step itself (checked by R1)")
+		return
+	}
+	node := c07DescParam(fn)
+	var steps []ssa.CallInstruction
+	for _, call := range Calls(fn, func(string) bool { return true }) {
+		if g := StaticCallee(call); g != nil && fnPkgPath(g) == pkgPath("internal/graph") && g.Parent() == nil && len(CallsTo(g, "~/content.Successors")) > 0 {
+			a := call.Common().Args
+			if node != nil && c05ParamOf(a[len(a)-1]) == node && SameValue(a[0], fn.Params[0]) {
+				steps = append(steps, call)
+			}
+		}
+	}
+	ok := len(steps) > 0
+	detail := "Index(node) runs the index step on the same graph and node and returns its error"
+	stepAl := map[ssa.Value]bool{}
+	for _, st := range steps {
+		if e := ErrOf(st); e != nil {
+			for a := range Aliases(e) {
+				stepAl[a] = true
+			}
+		}
+		if r := ErrFlow(st, ErrFlowOpts{}); !r.OK {
+			ok, detail = false, "the index step's error is not returned: "+r.Detail
+		}
+	}
+	for _, a := range c05MaybeNilAtoms(fn) {
+		if stepAl[a.Val] {
+			continue
+		}
+		if !c05AtomMustPass(a, newCut().Calls(steps)) {
+			ok, detail = false, "Index can return nil without running the index step: a pushed manifest's edges are never recorded"
+		}
+	}
+	c.Check(R, FnName(fn)+"|delegates-to-index-step", fn.Pos(), ok, detail)
+}
+
 func c07R2IndexAll(c *Ctx) {
 	const R = "C07.R2.every-push-indexed"
 	fn := c.P.Fn("internal/graph", "Memory.IndexAll")
@@ -844,7 +891,7 @@ func c07R3(c *Ctx) {
 
 func c07R4(c *Ctx) {
 	const R = "C07.R4.lock-discipline"
-	c.Expect(R, 16)
+	c.Expect(R, 13) // 16 on the pinned tree
 	LockCheck(c, R, []GuardSpec{c06GraphSpec()}, []string{"internal/graph"})
 }
 
@@ -874,6 +921,7 @@ var c07Mutants = []Mutant{
 	{Name: "gc-rebuilt-graph-not-installed", File: "content/oci/oci.go", Old: "\ts.tagResolver = tagResolver\n\ts.graph = graph\n", New: "\ts.tagResolver = tagResolver\n", Expect: "C07.R2.every-push-indexed|(*~/content/oci.Store).gcIndex|rebuilt-graph-installed"},
 	{Name: "indexall-swallows-every-error", File: "internal/graph/memory.go", Old: "\t\t\tif errors.Is(err, errdef.ErrNotFound) {", New: "\t\t\tif errors.Is(err, errdef.ErrNotFound) || err != nil {", Expect: "C07.R2.every-push-indexed|(*~/internal/graph.Memory).IndexAll$1|skips-only-not-found"},
 	{Name: "indexall-no-descent-for-single-successor", File: "internal/graph/memory.go", Old: "\t\tif len(successors) > 0 {", New: "\t\tif len(successors) > 1 {", Expect: "C07.R2.every-push-indexed|(*~/internal/graph.Memory).IndexAll$1|descends-into-all-successors"},
+	{Name: "index-wrapper-skips-leaf-kinds", File: "internal/graph/memory.go", Old: "\t_, err := m.index(ctx, fetcher, node)\n\treturn err", New: "\tif node.MediaType == \"\" {\n\t\treturn nil\n\t}\n\t_, err := m.index(ctx, fetcher, node)\n\treturn err", Expect: "C07.R2.every-push-indexed|(*~/internal/graph.Memory).Index|delegates-to-index-step"},
 	// R3
 	{Name: "ismanifest-forgets-docker-manifest-list", File: "internal/descriptor/descriptor.go", Old: "\tcase docker.MediaTypeManifest,\n\t\tdocker.MediaTypeManifestList,\n", New: "\tcase docker.MediaTypeManifest,\n", Expect: "C07.R3.edge-bearing-kinds-persisted"},
 	// R4
